@@ -71,7 +71,14 @@ func (fr *Frame) callValue(st *State, fnv Value, ft types.Type, args []Value, in
 	name := "type:" + ifaceName(ft)
 	sig := ft.Underlying().(*types.Signature)
 	fr.safety(st, "safe.nilfunc", in, not(eq(s.T, refLit(0))), "call of nil function")
-	return fr.callByContractOrHavoc(st, name, nil, sig, args, false, in)
+	v, err := fr.callByContractOrHavoc(st, name, nil, sig, args, false, in)
+	if err == nil {
+		if fr.lastRet == nil {
+			fr.lastRet = map[string]Value{}
+		}
+		fr.lastRet[s.T] = v
+	}
+	return v, err
 }
 
 func (fr *Frame) callStatic(st *State, fn *ssa.Function, bind []Value, args []Value, in ssa.Instruction) (Value, error) {
@@ -620,6 +627,9 @@ func (fr *Frame) callContract(st *State, ct *FuncContract, fn *ssa.Function, sig
 		if err != nil {
 			return nil, fmt.Errorf("requires %s of %s: %v", cl.Label, ct.Name, err)
 		}
+		if ct.Opts["nopre"] {
+			r.assumed["precondition of "+ct.Name+" at its call sites (assumed, not proved: opt nopre)"] = true
+		}
 		if r.dry == 0 && !ct.Opts["nopre"] && !r.faults {
 			r.addOblig(&Oblig{Name: fr.oblName("pre@call", fmt.Sprintf("%s#%d.%s", calleeShort, k, cl.Label)), Kind: "pre@call", Func: r.eng.fnName(fr.fn), Label: cl.Label, Tags: cl.Tags, Text: cl.Text + "   [call at " + site + "]", Guard: st.guard, Goal: g})
 		}
@@ -632,13 +642,7 @@ func (fr *Frame) callContract(st *State, ct *FuncContract, fn *ssa.Function, sig
 		r.assume(st, refLe(pre.alloc, fresh))
 		st.alloc = fresh
 	}
-	for i, m := range ct.Modifies {
-		if err := fr.applyModifies(m, env, post); err != nil {
-			return nil, fmt.Errorf("modifies %s of %s: %v", ct.ModText[i], ct.Name, err)
-		}
-	}
-	post.apply()
-	// 3. results
+	// results exist before the frame is applied, so that a modifies clause may name them
 	rn := resultNames(sig)
 	var results []Value
 	for i, n := range rn {
@@ -651,6 +655,18 @@ func (fr *Frame) callContract(st *State, ct *FuncContract, fn *ssa.Function, sig
 		}
 		results = append(results, v)
 		names[n] = v
+	}
+	if len(results) == 1 {
+		names["result"] = results[0]
+	}
+	for i, m := range ct.Modifies {
+		if err := fr.applyModifies(m, env, post); err != nil {
+			return nil, fmt.Errorf("modifies %s of %s: %v", ct.ModText[i], ct.Name, err)
+		}
+	}
+	post.apply()
+	// 3. results
+	for _, v := range results {
 		r.assume(st, r.typeInv(st, v))
 	}
 	if len(results) == 1 {
